@@ -68,6 +68,22 @@ def run(ctx, chk):
             chk.ob("R3.1", fn, "the guarded (mlen, ic) are the values handed to the backend", okf, loc=fn.loc(e.iid),
                    key="R3.1 crypto_stream_chacha20_ietf_xor_ic forwarded")
     chk.floor("R3.1", "paths of _ietf_xor_ic reaching the backend", n, 1)
+    # R3.1-bind: the threshold itself, decided exactly for representative initial counters: with ic bound to the
+    # constant k (conditional constant propagation), the longest length that can still reach the backend must be
+    # at most 64 * (2^32 - k) bytes - one more byte would need block index 2^32
+    nb = 0
+    for k in (0, 1, 2, 3, 64, 1 << 31, (1 << 32) - 3, (1 << 32) - 2, (1 << 32) - 1):
+        bind = [(("icmp", "eq", IC, T.C(k, 32)), True)]
+        for p in cm.paths(prog, fn, assume=bind):
+            for e in p.calls(*EXT):
+                nb += 1
+                iv = p.facts_before(e.idx).interval(MLEN) or (0, (1 << 64) - 1)
+                lim = 64 * ((1 << 32) - k)
+                ok = iv[1] <= lim
+                chk.ob("R3.1-bind", fn, "with ic = %d the backend is reached only with mlen <= 64 * (2^32 - ic) = %d" % (k, lim), ok,
+                       loc=fn.loc(e.iid), detail="path facts give mlen in [%d, %d]" % iv, path=None if ok else p,
+                       key="R3.1-bind crypto_stream_chacha20_ietf_xor_ic threshold")
+    chk.floor("R3.1-bind", "backend calls under a bound initial counter", nb, 9)
     kmax = prog.K("crypto_stream_chacha20_ietf_MESSAGEBYTES_MAX")
     for name, li in (("crypto_stream_chacha20_ietf", 1), ("crypto_stream_chacha20_ietf_xor", 2)):
         f = prog.need(name, rule="R3.1")
